@@ -283,4 +283,109 @@ def run (p : Proj) : List Op → Proj
     | .ok q => run q os
     | _ => run p os
 
+/-! ## round 5: option handling, the callback sequence of `ForEachService`, accessors -/
+
+/-- `DependencyOption`s are applied in order to `withServicesOptions{dependencyPolicy: includeDependencies}`
+(the last one wins); `ForEachService` replaces an empty option list by `[IncludeDependencies]` first, which is
+the same default -/
+def policyOf (opts : List Policy) : Policy := opts.foldl (fun _ o => o) .deps
+
+inductive WalkC where
+  | ok (seen calls : List String)
+  | noSuchService
+  | outOfFuel
+deriving DecidableEq, Repr, Inhabited
+
+/-- forget the callback sequence -/
+def WalkC.forget : WalkC → Walk
+  | .ok s _ => .ok s
+  | .noSuchService => .noSuchService
+  | .outOfFuel => .outOfFuel
+
+/-- the loop of `withServices` with the calls of `fn` recorded: a service is *marked* (`seen[name] = true`) before
+the recursive call on its dependencies and `fn(name, …)` is *called* after it (post-order) -/
+def walkLoopC (rec : List String → AL Dep → List String → List String → WalkC) (svcs : AL Svc) (pol : Policy) :
+    List String → List String → List String → WalkC
+  | [], seen, calls => .ok seen calls
+  | n :: ns, seen, calls =>
+    match lookup n svcs with
+    | none => walkLoopC rec svcs pol ns seen calls
+    | some s =>
+      if n ∈ seen then walkLoopC rec svcs pol ns seen calls
+      else
+        let d := nextOf svcs pol n s
+        if d.isEmpty then walkLoopC rec svcs pol ns (n :: seen) (calls ++ [n])
+        else match rec (keys d) d (n :: seen) calls with
+          | .ok seen' calls' => walkLoopC rec svcs pol ns seen' (calls' ++ [n])
+          | e => e
+
+/-- `Project.withServices` with the calls of `fn` recorded (`fn` never fails) -/
+def walkC (svcs : AL Svc) (pol : Policy) : Nat → List String → AL Dep → List String → List String → WalkC
+  | 0, _, _, _, _ => .outOfFuel
+  | fuel + 1, names, parent, seen, calls =>
+    let names' := if names.isEmpty then keys svcs else names
+    if names'.any (missingFatal svcs parent) then .noSuchService
+    else walkLoopC (walkC svcs pol fuel) svcs pol names' seen calls
+
+/-- `Project.ForEachService(names, fn, options...)`: the sequence of names `fn` is called with -/
+def forEachCalls (p : Proj) (names : List String) (opts : List Policy) : WalkC :=
+  walkC p.services (policyOf opts) (p.services.length + 1) names [] [] []
+
+/-- `Project.ServiceNames` / `DisabledServiceNames`: the keys, `sort.Strings`ed -/
+def serviceNames (p : Proj) : List String := sortNames (keys p.services)
+def disabledServiceNames (p : Proj) : List String := sortNames (keys p.disabled)
+
+inductive Get where
+  | ok (s : Svc)
+  | disabled        -- "no such service: …" wrapping `errdefs.ErrDisabled`
+  | notFound        -- "no such service: …" wrapping `errdefs.ErrNotFound`
+deriving DecidableEq, Repr, Inhabited
+
+/-- `Project.GetService` -/
+def getService (p : Proj) (n : String) : Get :=
+  match lookup n p.services with
+  | some s => .ok s
+  | none => if has n p.disabled then .disabled else .notFound
+
+inductive GetMany where
+  | ok (m : AL Svc)
+  | disabled
+  | notFound
+deriving DecidableEq, Repr, Inhabited
+
+def getServicesLoop (p : Proj) : List String → AL Svc → GetMany
+  | [], acc => .ok acc
+  | n :: ns, acc =>
+    match getService p n with
+    | .ok s => getServicesLoop p ns (insert n s acc)
+    | .disabled => .disabled
+    | .notFound => .notFound
+
+/-- `Project.GetServices`: no name = the service map itself; else the first failing `GetService` decides the error -/
+def getServices (p : Proj) (names : List String) : GetMany :=
+  if names.isEmpty then .ok p.services else getServicesLoop p names []
+
+/-- `Project.GetDisabledService` -/
+def getDisabledService (p : Proj) (n : String) : Option Svc := lookup n p.disabled
+
+/-- `Project.GetDependentsForService`: `utils.MapKeys` (sorted keys) of `dependentsForService` -/
+def getDependentsForService (p : Proj) (s : Svc) : List String := sortNames (keys (dependents p.services s))
+
+/-- `ServiceConfig.GetDependents(p)`: the `Name`s of the services with a `depends_on` entry for `s.Name`, in range order
+(a list, not a set: one entry per depending service) -/
+def getDependents (p : Proj) (s : Svc) : List String :=
+  p.services.filterMap fun kv => if has s.name kv.2.deps then some kv.2.name else none
+
+/-- `Services.GetProfiles`: all profiles named by the services of a map, each once.  The Go function collects them in a map
+and lists that map by ranging over it, so the *order* of the slice is Go's map order (here: range order of the services);
+callers get an unordered list (a reviewed order-leak site of C02, `Spec/Determinism.lean`) -/
+def getProfilesPre (svcs : AL Svc) : List String := (svcs.flatMap fun kv => kv.2.profiles).eraseDups
+
+/-- `Services.GetProfiles` as the set it is: the sorted view (what the harness compares, and the only thing a caller may rely on) -/
+def getProfiles (svcs : AL Svc) : List String := sortNames (getProfilesPre svcs)
+
+/-- `WithSelectedServices(names, options...)`: the options are handed to `ForEachService` as they are -/
+def withSelectedServicesOpts (p : Proj) (names : List String) (opts : List Policy) : Out :=
+  withSelectedServices p names (policyOf opts)
+
 end CV.Sel
